@@ -737,6 +737,7 @@ fn run() {
     let mut r = Report::new("C08");
     run_fields(&mut r);
     super::c08b::run_derived(&mut r);
+    super::c09o::run_field_ctors(&mut r);
     r.flag("exhaustive", true);
     r.finish();
 }
